@@ -61,9 +61,77 @@ fn uclass(v: u64) -> u64 {
     w * 32 + near
 }
 
+/// The codec is a trait implemented for u8/u16/u32/u64 and i8/i16/i32/i64: a value has one encoding, whichever type carries it.
+fn check_narrow_types(c: &mut Case, v: u64) {
+    fn both<T: Vint>(x: T, l: usize) -> (Result<Vec<u8>, String>, Result<Vec<u8>, String>) {
+        let a = x.as_vint().map_err(|e| format!("{:?}", e));
+        let b = match l {
+            1 => x.as_vint_with_length::<1>().map(|a| a.to_vec()),
+            2 => x.as_vint_with_length::<2>().map(|a| a.to_vec()),
+            3 => x.as_vint_with_length::<3>().map(|a| a.to_vec()),
+            5 => x.as_vint_with_length::<5>().map(|a| a.to_vec()),
+            _ => x.as_vint_with_length::<8>().map(|a| a.to_vec()),
+        }
+        .map_err(|e| format!("{:?}", e));
+        (a, b)
+    }
+    let l = [1usize, 2, 3, 5, 8][(v % 5) as usize];
+    let wide = guard(1 << 20, || both(v, l));
+    let narrow = if v <= u8::MAX as u64 {
+        Some(("u8", guard(1 << 20, || both(v as u8, l))))
+    } else if v <= u16::MAX as u64 {
+        Some(("u16", guard(1 << 20, || both(v as u16, l))))
+    } else if v <= u32::MAX as u64 {
+        Some(("u32", guard(1 << 20, || both(v as u32, l))))
+    } else {
+        None
+    };
+    if let Some((ty, n)) = narrow {
+        c.count("narrow_type_comparisons");
+        let same = match (&wide, &n) {
+            (Ok(a), Ok(b)) => a == b,
+            _ => false,
+        };
+        if !same {
+            c.violation(format!("C15/narrow-type-differs/{}", ty), format!("{} encodes differently as {} than as u64 (width {})", v, ty, l), J::obj().set("value", J::u(v)).set("as_u64", J::s(format!("{:?}", wide.as_ref().map_err(|e| e.text())))).set("narrow", J::s(format!("{:?}", n.as_ref().map_err(|e| e.text())))));
+        }
+    }
+}
+
+fn check_narrow_signed(c: &mut Case, v: i64) {
+    fn both<T: SignedVint>(x: T, l: usize) -> (Result<Vec<u8>, String>, Result<Vec<u8>, String>) {
+        (x.as_signed_vint().map_err(|e| format!("{:?}", e)), x.as_signed_vint_with_length(l).map_err(|e| format!("{:?}", e)))
+    }
+    let l = 1 + (v.unsigned_abs() % 8) as usize;
+    let wide = guard(1 << 20, || both(v, l));
+    let narrow = if v >= i8::MIN as i64 && v <= i8::MAX as i64 {
+        Some(("i8", guard(1 << 20, || both(v as i8, l))))
+    } else if v >= i16::MIN as i64 && v <= i16::MAX as i64 {
+        Some(("i16", guard(1 << 20, || both(v as i16, l))))
+    } else if v >= i32::MIN as i64 && v <= i32::MAX as i64 {
+        Some(("i32", guard(1 << 20, || both(v as i32, l))))
+    } else {
+        None
+    };
+    if let Some((ty, n)) = narrow {
+        c.count("narrow_type_comparisons");
+        let same = match (&wide, &n) {
+            (Ok(a), Ok(b)) => a == b,
+            (Err(_), Err(_)) => true, // both panic the same way is judged by check_signed on the i64
+            _ => false,
+        };
+        if !same {
+            c.violation(format!("C15/narrow-type-differs/{}", ty), format!("{} encodes differently as {} than as i64 (width {})", v, ty, l), J::obj().set("value", J::Int(v)).set("as_i64", J::s(format!("{:?}", wide.as_ref().map_err(|e| e.text())))).set("narrow", J::s(format!("{:?}", n.as_ref().map_err(|e| e.text())))));
+        }
+    }
+}
+
 fn check_unsigned(c: &mut Case, v: u64) {
     c.eval();
     c.count("unsigned_values_checked");
+    if v <= u32::MAX as u64 && v % 7 == 0 {
+        check_narrow_types(c, v);
+    }
     let wit = |what: &str, got: String, want: String| J::obj().set("function", J::s(what)).set("value", J::u(v)).set("value_hex", J::s(format!("{:#x}", v))).set("got", J::s(got)).set("expected", J::s(want));
     // default encoder
     let mw = min_vint_width(v);
@@ -146,6 +214,9 @@ fn ref_signed_decode(b: &[u8], l: usize) -> i64 {
 fn check_signed(c: &mut Case, v: i64) {
     c.eval();
     c.count("signed_values_checked");
+    if v % 5 == 0 {
+        check_narrow_signed(c, v);
+    }
     let wit = |what: &str, l: usize, got: String, want: String| J::obj().set("function", J::s(what)).set("width", J::u(l)).set("value", J::Int(v)).set("got", J::s(got)).set("expected", J::s(want));
     let mut shortest_strict: Option<usize> = None;
     for l in 1..=8usize {
